@@ -42,7 +42,7 @@ def sig_shapes():
 
 
 CLOSURES = ('none', 'one', 'two_unused', 'empty_cell', 'sibling', 'nonlocal')
-ENTITIES = ('function', 'lambda', 'method', 'method_falsy', 'nested', 'loop', 'decorated')
+ENTITIES = ('function', 'lambda', 'method', 'method_falsy', 'nested', 'loop', 'decorated', 'wrapped')
 
 
 def items(tier, seed):
@@ -125,6 +125,9 @@ def build_source(item, pid=0):
   else:
     if ent == 'decorated':
       L.append(ind + '@count_deco')
+    if ent == 'wrapped':
+      # carries __wrapped__ (and the name / docstring) of an unrelated function with another signature
+      L.append(ind + '@functools.wraps(other_fn)')
     if ent == 'loop':
       L.append(ind + 'fs = []')
       L.append(ind + 'for j in (1, 2):')
@@ -189,6 +192,10 @@ def load(item, pid):
     counts['deco'] = counts.get('deco', 0) + 1
     return fn
   g = mod.__dict__
+  def other_fn(q, r=5):
+    return ('other', q, r)
+  import functools
+  g.update({'other_fn': other_fn, 'functools': functools})
   g.update({'cnt': cnt, 'count_deco': count_deco, 't': malt.experimental.do_not_convert(lambda s: True), 'G': 'glob',
             'CONVERT': lambda f: malt.to_graph(f)})
   exec(compile(src, fname, 'exec'), g)  # pylint:disable=exec-used
@@ -197,7 +204,8 @@ def load(item, pid):
   c.second = None
   if 'make' in g:
     c.f, c.cf, c.x1, c.x2 = g['make'](3)
-    c.second = g['make'](4)     # same code objects, different cells
+    # same code objects, different cells: once holding equal values, once holding different values
+    c.second = [g['make'](3), g['make'](4)]
   else:
     c.f = g['f']
     c.cf = malt.to_graph(c.f)
@@ -267,7 +275,7 @@ def check_case(item, pid, break_defaults=False):
     if break_defaults and cf.__defaults__:
       cf.__defaults__ = tuple(list(d) if isinstance(d, list) else d for d in cf.__defaults__)
     # --- interface
-    so, sc = inspect.signature(fo), inspect.signature(cf)
+    so, sc = inspect.signature(fo, follow_wrapped=False), inspect.signature(cf, follow_wrapped=False)
     if [(p.name, p.kind) for p in so.parameters.values()] != [(p.name, p.kind) for p in sc.parameters.values()]:
       viol.append(('signature', 'original %s, converted %s' % (so, sc)))
     d0, d1 = fo.__defaults__ or (), cf.__defaults__ or ()
@@ -292,7 +300,7 @@ def check_case(item, pid, break_defaults=False):
     # --- nothing re-evaluated / re-applied
     if c.counts != counts_after_def:
       viol.append(('re-evaluated', 'default expressions / decorators ran again during conversion: %r -> %r' % (counts_after_def, c.counts)))
-    mult = 2 if c.second is not None else 1    # the factory ran twice
+    mult = 3 if c.second is not None else 1    # the factory ran three times
     if ent == 'decorated' and c.counts.get('deco', 0) != mult:
       viol.append(('decorator-reapplied', 'decorator applied %d times' % c.counts.get('deco', 0)))
     for name, nn in c.counts.items():
@@ -324,9 +332,9 @@ def check_case(item, pid, break_defaults=False):
     # --- rebinding through a sibling is seen by both
     if clos == 'sibling':
       c.x1(4242)
-      base = ((10,) * len([p for p in inspect.signature(fo).parameters.values()
+      base = ((10,) * len([p for p in inspect.signature(fo, follow_wrapped=False).parameters.values()
                            if p.default is p.empty and p.kind in (p.POSITIONAL_ONLY, p.POSITIONAL_OR_KEYWORD)]))
-      kwreq = {p.name: 1 for p in inspect.signature(fo).parameters.values() if p.default is p.empty and p.kind == p.KEYWORD_ONLY}
+      kwreq = {p.name: 1 for p in inspect.signature(fo, follow_wrapped=False).parameters.values() if p.default is p.empty and p.kind == p.KEYWORD_ONLY}
       r0 = call(f, base, kwreq)
       r1 = call(cf, inst + base, kwreq)
       if r0 != r1 or (r0[0] == 'ret' and 4242 not in flatten(r0[1])):
@@ -345,8 +353,10 @@ def check_case(item, pid, break_defaults=False):
         viol.append(('wrapper-call-result', 'convert()(f) with args=%r kwargs=%r: original %r, converted %r' % (args, kwargs, r0, r1)))
         break
     # --- a second function made by the same factory has its own cells
-    if c.second is not None:
-      f2, cf2 = c.second[0], c.second[1]
+    for nth, sec in enumerate(c.second or ()):
+      f2, cf2 = sec[0], sec[1]
+      if any(a is b for a, b in zip(fo.__closure__ or (), cf2.__closure__ or ())):
+        viol.append(('second-closure-cell', 'another function of the factory is bound to cells of the first one'))
       fo2 = f2.__func__ if inspect.ismethod(f2) else f2
       inst2 = (f2.__self__,) if inspect.ismethod(f2) else ()
       cells2 = dict(zip(fo2.__code__.co_freevars, fo2.__closure__ or ()))
@@ -354,9 +364,9 @@ def check_case(item, pid, break_defaults=False):
       for n, cell in cells2.items():
         if n in cellsc2 and cellsc2[n] is not cell:
           viol.append(('second-closure-cell', 'second function of the factory: free variable %s bound to a different cell' % n))
-      base = ((10,) * len([p for p in inspect.signature(fo2).parameters.values()
+      base = ((10,) * len([p for p in inspect.signature(fo2, follow_wrapped=False).parameters.values()
                            if p.default is p.empty and p.kind in (p.POSITIONAL_ONLY, p.POSITIONAL_OR_KEYWORD)]))
-      kwreq = {p.name: 1 for p in inspect.signature(fo2).parameters.values() if p.default is p.empty and p.kind == p.KEYWORD_ONLY}
+      kwreq = {p.name: 1 for p in inspect.signature(fo2, follow_wrapped=False).parameters.values() if p.default is p.empty and p.kind == p.KEYWORD_ONLY}
       if clos == 'nonlocal':
         set_cell(fo2, 'v1', 60)
       r0 = call(f2, base, kwreq)
